@@ -16,6 +16,9 @@ THEOREMS = [
     "TornadoModel.C06.get_is_joined_list",
     "TornadoModel.C06.field_line_is_add",
     "TornadoModel.C06.obs_fold_extends_last_value",
+    "TornadoModel.C06.field_line_is_add_chars",
+    "TornadoModel.C06.malformed_line_rejected",
+    "TornadoModel.C06.bad_continuation_rejected",
     "TornadoModel.C06.present_deletable",
     "TornadoModel.C06.reported_deletable",
     "TornadoModel.C06.present_deletable_run",
@@ -44,13 +47,13 @@ RULE = ("op sequences over a small name/value alphabet with case variants, valid
 EXHAUSTIVE = {"quick": False, "thorough": False}
 CLAUSE_CAVEATS = [
     "copies are independent: the theorems (copy_equal, copy_behaves_as_multimap) describe each object's behaviour; that the two Python objects share no mutable state cannot be stated in the immutable model and rests on the copy cases of the correspondence stream",
-    "line parsing: Spec.parseLine shares its lexical helpers (stripEol, splitColon, stripWs, appendToLast) with the model, so for the line grammar refines_multimap relates near-identical definitions; what the helpers do on GRAMMATICAL lines is proved separately (field_line_is_add, obs_fold_extends_last_value: name ':' OWS value OWS / (SP|HTAB)+ text OWS, terminated by nothing, LF or CRLF); which malformed lines are rejected (and the odd terminators LF LF, CR LF LF) is checked only by the Python reference reader (_ref_parse) on the parse cases and by the correspondence, not by a theorem; isToken/isFieldValue are hand-transcriptions of the _ABNF regexes (TRUSTED)",
-    "the _chars_are_bytes=False validation branch (multipart part headers) is outside Op/run and hence outside the theorems; it is covered by correspondence (parseU) and the reference reader only",
+    "line parsing: Spec.parseLine shares its lexical helpers (stripEol, splitColon, stripWs, appendToLast) with the model, so for the line grammar refines_multimap relates near-identical definitions; what they do is proved separately against a grammar stated from the outside (field_line_is_add, obs_fold_extends_last_value, malformed_line_rejected, bad_continuation_rejected; terminators '', LF, CRLF); NOT covered by a theorem: lines containing a bare CR or ending in LF LF / CR LF LF (reference reader _ref_parse and correspondence only); isToken/isFieldValue are hand-transcriptions of the _ABNF regexes (TRUSTED)",
+    "the _chars_are_bytes=False mode (multipart part headers) is outside Op/run: field_line_is_add_chars proves the accepting field-line path on reachable states; its continuation lines and rejections are covered by correspondence (parseU) and the reference reader only",
 ]
 CLAUSES = {
     "line parsing including continuation lines":
         "refines_multimap (parseLine op) + field_line_is_add + obs_fold_extends_last_value (grammar stated from the outside, "
-        "incl. cache invalidation on the fold path)",
+        "incl. cache invalidation on the fold path) + malformed_line_rejected + bad_continuation_rejected + field_line_is_add_chars",
     "behaves like an insertion-ordered multimap keyed by case-insensitive name":
         "refines_multimap + normalize_eq_iff_lower_eq + normalize_case_variants (all names, not only letters-and-hyphens; "
         "closed form of the stored key: normalize_eq_headerCase)",
